@@ -129,7 +129,7 @@ func checkC09(w *World, r *Report) {
 	r.Undecided = []string{"none: C09 is structural; what the auth keeper's SetAccount does with the value is trusted SDK semantics"}
 	r.Rule("C09.sites", "P4", "every account write (SetAccount) reachable from a message or block routine of the custom modules is enumerated and classified as 'fresh account' or 'signer's own vesting reduction'", 3)
 	r.Rule("C09.fresh", "P5,P6", "a SetAccount whose account value originates from NewAccountWithAddress(addr) is, on every call chain, dominated by the edge on which GetAccount(addr) returned nil for the same address value", 2)
-	r.Rule("C09.self", "P4,P6", "the only other SetAccount stores an account obtained by GetAccount(owner) of which only OriginalVesting was assigned, and at every message call chain owner is parsed from the message field that GetSigners returns", 4)
+	r.Rule("C09.self", "P4,P6", "the only other SetAccount stores an account obtained by GetAccount(owner) of which only OriginalVesting was assigned, and at every message call chain owner is parsed from the message field that GetSigners returns; the object stored is the very object read (no conversion or reconstruction)", 5)
 	if !ro.checkFloors(r) {
 		return
 	}
@@ -177,6 +177,10 @@ func c09self(w *World, r *Report, s *Site, gets []*ssa.Call, tr *Tracer) {
 	fn := s.Caller
 	pos := w.Pos(s.Instr.Pos())
 	ro := w.Roles()
+	// the account written back is the very object that was read: same type, number, sequence, key; a converted or
+	// rebuilt account replaces the existing one
+	r.Check(isObjectReadBy(s.Args()[len(s.Args())-1], ".GetAccount"), "C09.self", funcName(fn)+": the account stored is the object that was read", pos,
+		"SetAccount receives the (type-asserted) result of GetAccount", "the account written back is not the object that was read but a converted or rebuilt one: the existing account is replaced (type, and every field the constructor is not given)")
 	// field stores to vesting account types in fn: only OriginalVesting
 	for _, fs := range FieldStores(fn) {
 		if fs.Struct == nil || fs.Struct.Obj().Pkg() == nil {
